@@ -70,17 +70,24 @@ POOL.update(
         "ZU": (["C2", "H"], ["C", "CH"], (10.0, 300.0), "UMIST_TWOBODY"),
     }
 )
-FORMAT_OF = {"YK": "kida", "YU": "umist", "YC": "uclchem", "ZK": "kida", "ZU": "umist"}
-IDS4 = ["Y0", "YK", "YU", "YC", "ZK", "ZU"]
+# ... and an ice reaction read from a Leeds file (surface prefix G) next to the same reaction in the default spelling
+POOL.update(
+    {
+        "W0": (["CO"], ["#CO"], (10.0, 300.0), "GRAIN_FREEZE"),
+        "WL": (["CO"], ["GCO"], (10.0, 300.0), "LEEDS_FREEZE"),
+    }
+)
+FORMAT_OF = {"YK": "kida", "YU": "umist", "YC": "uclchem", "ZK": "kida", "ZU": "umist", "WL": "leeds"}
+IDS4 = ["Y0", "YK", "YU", "YC", "ZK", "ZU", "W0", "WL"]
 IDS2 = ["E0", "E1", "E2", "O0", "O1", "S0", "S1", "A0", "A3", "A7", "A8"]
-IDS = [k for k in POOL if k not in ("E0", "E1", "E2", "O0", "O1", "S0", "S1", "A7", "A8", "F0", "F1", "F2", "F3", "N2", "N3", "N4", "Y0", "YK", "YU", "YC", "ZK", "ZU")]
+IDS = [k for k in POOL if k not in ("E0", "E1", "E2", "O0", "O1", "S0", "S1", "A7", "A8", "F0", "F1", "F2", "F3", "N2", "N3", "N4", "Y0", "YK", "YU", "YC", "ZK", "ZU", "W0", "WL")]
 MODES = [None, "brief", "minimal", "short"]
 
 
 def related(a, b, mode):
     ra, pa, wa, ta = POOL[a]
     rb, pb, wb, tb = POOL[b]
-    ident = (lambda x: "e-" if x == "E" else x) if mode in (None, "brief") else (lambda x: x)  # species identity vs printed name
+    ident = (lambda x: "e-" if x == "E" else "#CO" if x == "GCO" else x) if mode in (None, "brief") else (lambda x: x)  # species identity vs printed name
     same_rp = sorted(map(ident, ra)) == sorted(map(ident, rb)) and sorted(map(ident, pa)) == sorted(map(ident, pb))
     if mode in ("brief", "minimal"):
         return same_rp
@@ -88,7 +95,7 @@ def related(a, b, mode):
         return same_rp and wa == wb and ta == tb
     # default mode compares the type itself: the per-format enumerations share their codes (KIDA_MA = UMIST_TWOBODY =
     # UCLCHEM_MA = GAS_TWOBODY = 100); short mode compares the printed type NAME, which differs between the classes
-    code = lambda t: 100 if t in ("KIDA_MA", "UMIST_TWOBODY", "UCLCHEM_MA", "GAS_TWOBODY") else t
+    code = lambda t: 100 if t in ("KIDA_MA", "UMIST_TWOBODY", "UCLCHEM_MA", "GAS_TWOBODY") else 200 if t in ("GRAIN_FREEZE", "LEEDS_FREEZE") else t
     return same_rp and wa == wb and (code(ta) == code(tb) or "UNKNOWN" in (ta, tb))
 
 
@@ -138,6 +145,13 @@ def mk(rid):
         from naunet.reactions.uclchemreaction import UCLCHEMReaction
 
         fmt = FORMAT_OF[rid]
+        if fmt == "leeds":
+            from naunet.reactions.leedsreaction import LEEDSReaction
+            from . import c05
+
+            x = LEEDSReaction(c05.encode("leeds", 7, None, list(r), list(p), 1.0, 0.0, 0.0, 7, int(lo), int(hi)))
+            x._vid = rid
+            return x
         ar = F.AReaction(list(r), list(p), 1.0, 0.0, 0.0, lo, hi, 7, {"kida": 3, "umist": "NN", "uclchem": None}[fmt], None)
         if fmt == "kida":
             ar = F.AReaction(list(r), list(p), 1.0, 0.0, 0.0, int(lo), int(hi), 7, 3, None)
